@@ -160,10 +160,13 @@ func writeMap(w io.Writer, m map[string]interface{}, sdl bool, depth, indent int
 			_, err = w.Write(i2)
 		}
 		if err == nil {
-			if sdl {
+			if sdl && isTokenString(key) {
 				_, err = w.Write([]byte(key))
 			} else {
-				// A JSON key is a string like any other and has to be escaped.
+				// A JSON key is a string like any other and has to be
+				// escaped. In SDL only a key made of token characters can be
+				// written bare, any other key is written as a quoted string
+				// which the parser accepts as a key as well.
 				err = writeString(w, key, true)
 			}
 		}
@@ -207,6 +210,20 @@ func writeMap(w io.Writer, m map[string]interface{}, sdl bool, depth, indent int
 		_, err = w.Write([]byte{'\n'})
 	}
 	return
+}
+
+// isTokenString returns true if the string is not empty and consists of
+// token characters (letters, digits, and underscore) only.
+func isTokenString(s string) bool {
+	if len(s) == 0 {
+		return false
+	}
+	for i := 0; i < len(s); i++ {
+		if charMap[s[i]] != tokenChar {
+			return false
+		}
+	}
+	return true
 }
 
 func isCollection(v interface{}) bool {
